@@ -10,6 +10,7 @@ import (
 	"grog/internal/dag"
 	"grog/internal/hashing"
 	"grog/internal/label"
+	"grog/internal/maps"
 	"grog/internal/model"
 	"grog/internal/output"
 	"grog/internal/output/handlers"
@@ -45,6 +46,9 @@ type Executor struct {
 	loadOutputsMode  config.LoadOutputsMode
 	targetHasher     *hashing.TargetHasher
 	streamLogsToggle *console.StreamLogsToggle
+	// With load_outputs=minimal several dependants may need the outputs of the same dependency
+	// at the same time: make sure it is only loaded (or re-run) by one of them
+	dependencyMutexMap *maps.MutexMap
 }
 
 func NewExecutor(
@@ -67,6 +71,8 @@ func NewExecutor(
 		loadOutputsMode:  loadOutputsMode,
 		targetHasher:     hashing.NewTargetHasher(graph),
 		streamLogsToggle: console.NewStreamLogsToggle(streamLogs),
+
+		dependencyMutexMap: maps.NewMutexMap(),
 	}
 }
 
@@ -465,7 +471,29 @@ func (e *Executor) LoadDependencyOutputs(
 		target.Label,
 	)
 	for _, dep := range e.graph.GetTargetDependencies(target) {
-		localDep := dep
+		if err := e.loadDependencyOutput(ctx, target, dep, update); err != nil {
+			return err
+		}
+	}
+
+	return nil
+}
+
+// loadDependencyOutput loads (or if that fails re-runs) a single dependency of target.
+func (e *Executor) loadDependencyOutput(
+	ctx context.Context,
+	target *model.Target,
+	localDep *model.Target,
+	update worker.StatusFunc,
+) error {
+	logger := console.GetLogger(ctx)
+	e.dependencyMutexMap.Lock(localDep.Label.String())
+	defer e.dependencyMutexMap.Unlock(localDep.Label.String())
+	if localDep.OutputsLoaded {
+		// Already loaded or executed in this build
+		return nil
+	}
+	{
 		// Function to re-run a dependency in case we
 		rerunDependency := func() error {
 			binTools, binToolErr := e.getBinToolPaths(localDep)
